@@ -201,7 +201,7 @@ func Run(tier string, seed uint64, modelPath, repo string, out *res.Result) erro
 	if dir := os.Getenv("WRH_C01_DUMP"); dir != "" {
 		os.MkdirAll(dir, 0o755)
 		for i, o := range outs {
-			if o.Status != "ok" && o.Status != "error" {
+			if (o.Status != "ok" && o.Status != "error") || os.Getenv("WRH_C01_DUMP_ALL") != "" {
 				b, _ := json.Marshal(map[string]interface{}{"case": cases[i], "out": o})
 				os.WriteFile(filepath.Join(dir, fmt.Sprintf("%s-%05d.json", o.Status, i)), b, 0o644)
 			}
@@ -291,7 +291,6 @@ func Run(tier string, seed uint64, modelPath, repo string, out *res.Result) erro
 	// metamorphic judge: invalid constructs are skipped
 	mr := rng.New(seed ^ 0x3E7A)
 	var mdocs []*Doc
-	var mbase []int
 	for k, i := range okIdx {
 		sub := mr.Sub()
 		if k%metaEvery != 0 || i < nCorpus {
@@ -301,40 +300,43 @@ func Run(tier string, seed uint64, modelPath, repo string, out *res.Result) erro
 		if !Inject(v, sub) {
 			continue
 		}
-		v.Variant = true
+		v.Guard = true
 		mdocs = append(mdocs, v)
-		mbase = append(mbase, i)
 	}
-	mcases := make([]Case, len(mdocs))
+	mcases := make([]Case, 0, 2*len(mdocs))
 	for k, v := range mdocs {
-		c := v.Case()
-		c.ID, c.LimitMS = 1000000+k, 20000
-		c.MaxPages = maxPages(c)
-		mcases[k] = c
+		for _, variant := range []bool{false, true} {
+			v.Variant = variant
+			c := v.Case()
+			c.ID, c.LimitMS = 1000000+2*k, 20000
+			if variant {
+				c.ID++
+			}
+			c.MaxPages = maxPages(c)
+			mcases = append(mcases, c)
+		}
+		v.Variant = true
 	}
 	mouts := pool.All(mcases, nil)
-	for k, mo := range mouts {
-		base := outs[mbase[k]]
-		v := mdocs[k]
+	for k, v := range mdocs {
+		base, mo := mouts[2*k], mouts[2*k+1]
 		out.Hit("inject:" + strings.SplitN(v.InjWhat, " ", 2)[0])
-		out.ModelCalls++ // here: traces compared between two runs of the implementation
-		if mo.Status == "ok" && base.Status == "ok" && mo.Trace == base.Trace {
-			out.Hit("meta:same")
+		if base.Status != "ok" {
+			out.Hit("meta:base-" + base.Status)
 			continue
 		}
-		if base.Status != "ok" {
-			continue // base was a slow case taken from the re-run: no trace hash kept
+		out.ModelCalls++ // here: traces compared between two runs of the implementation
+		if mo.Status == "ok" && mo.Trace == base.Trace {
+			out.Hit("meta:same")
+			continue
 		}
 		if mo.Status == "timeout" {
 			out.Hit("meta:variant-timeout-under-load")
 			continue
 		}
 		// confirm: both renders repeated
-		b := docs[mbase[k]].Clone()
-		bc := b.Case()
-		bc.LimitMS, bc.MaxPages = 20000, maxPages(bc)
-		b2 := pool.One(bc)
-		m2 := pool.One(mcases[k])
+		b2 := pool.One(mcases[2*k])
+		m2 := pool.One(mcases[2*k+1])
 		if b2.Status != "ok" || b2.Trace != base.Trace {
 			out.Hit("meta:base-not-reproducible")
 			continue
@@ -426,10 +428,19 @@ func report(pool *Pool, fails []failure, kf []kfEntry, out *res.Result, tier str
 	}
 	wg.Wait()
 	// unexplained first (res.Result caps the number of findings per class and overall)
+	// round-robin over the classes so that every class is represented before the overall cap is reached
 	for pass := 0; pass < 2; pass++ {
-		for ji, j := range jobs {
-			if (pass == 0) == !j.explain {
-				out.Add(results[ji])
+		for round := 0; round < 12; round++ {
+			seen := map[string]int{}
+			for ji, j := range jobs {
+				if (pass == 0) != !j.explain {
+					continue
+				}
+				k := j.f.kind + "|" + j.f.key
+				if seen[k] == round {
+					out.Add(results[ji])
+				}
+				seen[k]++
 			}
 		}
 	}
